@@ -160,6 +160,7 @@ def run(ctx, R, tier):
     from .c10 import err_propagation
     err_propagation(F, R)
     decode_arith(ctx, R)
+    chunk_start(F, R)
     from .c07 import write_unconditional
     # 'after any sequence of seeks': every seek command is polled on every turn, relative before absolute
     from .c09 import transport_cmd_order
@@ -576,6 +577,61 @@ def eof(F, R):
                     ok = False
                     why = 'a non-EOF error returns %s' % str(p.ret)[:80]
     R.check(ok and n_break >= 1, 'B.C18.eof', 'load-loop', why or 'no EOF exit found', detail={'eof_exits': n_break, 'swallowed': n_cont_err}, where=b.file)
+
+
+def chunk_start(F, R, rule='B.C18.seek'):
+    """Every decoded chunk is labelled with where the decoder stood when it was decoded: in DecodeScheduler::frame_at_index the
+    `start_index` of each DecodedChunk built inside the decode loop is the decoder's frame counter read in that very turn of the
+    loop, before the turn's own advance of the counter.  Read once in front of the loop it is right for the first chunk of a
+    lookup and wrong for every later one (a seek that lands more than one packet early, a slice that starts past the first
+    packet)."""
+    DS0 = 'sound::streaming::sound::decode_scheduler::DecodeScheduler::<Error>'
+    b = F.inlined_view(DS0 + '::frame_at_index', depth=1, pred=lambda hp: hp.startswith(DS0 + '::') and not hp.endswith(('::seek_to', '::seek_by', '::seek_to_index'))) \
+        or F.body(DS0 + '::frame_at_index')
+    if not R.check(b is not None, rule, 'anchor:chunk-start', 'DecodeScheduler::frame_at_index not found'):
+        return
+    from ..facts import trace
+    aggs = [(bb, si, s) for bb, si, s in b.stmts() if s['k'] == 'assign' and s['rv']['k'] == 'agg' and s['rv'].get('ak') == 'adt'
+            and (s['rv'].get('adt') or '').endswith('DecodedChunk') and 'start_index' in (s['rv'].get('fields') or [])]
+    n = 0
+    ok, why = bool(aggs), 'no DecodedChunk is built in frame_at_index'
+    for bb, si, s in aggs:
+        n += 1
+        op = s['rv']['ops'][s['rv']['fields'].index('start_index')]
+        loops = b.in_loop(bb)
+        # where the operand's value is read from the counter
+        src = None
+        cur = op
+        for _ in range(6):
+            if not is_place(cur):
+                break
+            pl = cur['pl']
+            if pl['p']:
+                if pretty_place(b, pl).endswith('decoder_current_frame_index'):
+                    src = ('here', bb)
+                break
+            ds = b.defs().get(pl['l'], [])
+            if len(ds) != 1 or ds[0][0] != 'stmt' or ds[0][3]['rv']['k'] != 'use':
+                break
+            nxt = ds[0][3]['rv']['op']
+            if is_place(nxt) and nxt['pl']['p'] and pretty_place(b, nxt['pl']).endswith('decoder_current_frame_index'):
+                src = ('stmt', ds[0][1])
+                break
+            cur = nxt
+        if src is None:
+            ok, why = False, 'the start_index of a decoded chunk is %s, not the decoder\'s frame counter' % describe(b, op, depth=5, at=bb)[:80]
+            break
+        if loops:
+            L = min(loops, key=lambda l: len(l['blocks']))
+            if src[1] not in L['blocks']:
+                ok, why = False, 'the start_index of the chunks decoded in the loop is read once, in front of the loop: right for the first chunk of a lookup only'
+                break
+            # ... before this turn's advance of the counter
+            adv = [x for x, si2, s2 in b.stmts() if s2['k'] == 'assign' and pretty_place(b, s2['lhs']).endswith('decoder_current_frame_index') and x in L['blocks']]
+            if any(b.dominates(a, src[1]) and a != src[1] for a in adv):
+                ok, why = False, 'the counter is advanced before it is read for the chunk\'s start_index'
+                break
+    R.check(ok, rule, 'chunk:start-per-chunk', 'DecodeScheduler::frame_at_index: %s' % why, detail={'chunks_built': n}, where=b.file)
 
 
 def chunk_lookup(F, R):
